@@ -60,8 +60,12 @@ func (m *ChannelSyncMsg) Decode(r io.Reader) error {
 		&m.CurrentTX)
 }
 
-// ID returns the channel's ID.
+// ID returns the channel's ID. A sync message without a state (an empty
+// transaction decodes fine) belongs to no channel: the zero ID is returned.
 func (m *ChannelSyncMsg) ID() channel.ID {
+	if m.CurrentTX.State == nil {
+		return channel.ID{}
+	}
 	return m.CurrentTX.ID
 }
 
